@@ -34,6 +34,7 @@ func c12(c *Ctx) {
 	c12Optional(c)
 	c12ConstFields(c)
 	c12Canonical(c)
+	c12FieldCopy(c)
 	idZeroRule(c, "C12.idzero", func(rel string) bool { return rel == "keyset" || strings.HasPrefix(rel, "insecurecleartextkeyset") || strings.HasPrefix(rel, "internal/protoserialization") })
 }
 
